@@ -1,7 +1,7 @@
 (* C01: bit-exact instantiation of AssignerMatch.assign with primitive floats (nucleotide scores, penalty selection); used by the unit
    correspondence with the real LongReadAssigner.assign_to_isoform only - nothing in props/ depends on this file. *)
 From Coq Require Import ZArith NArith QArith List Bool Floats.
-From IQ Require Import CorrSupport Intervals Junctions Assigner AssignerEnds AssignerScore AssignerMatch.
+From IQ Require Import CorrSupport Intervals Junctions AssignerDefs AssignerEndsDefs AssignerScore AssignerMatch.
 From IQ.gen Require Import Tables Prims.
 Import ListNotations. Open Scope Z_scope.
 
